@@ -85,6 +85,8 @@ func profileOf(name string) profile {
 		return profile{Untracked: true}
 	case "volheavy":
 		return profile{VolHeavy: true}
+	case "dangling-pv":
+		return profile{DanglingPV: true}
 	case "assume:pid-reuse":
 		return profile{PidReuse: true}
 	case "assume:relabel":
@@ -117,10 +119,16 @@ func runHistory(seed uint64, profName string, script func(g *gen)) (res result) 
 			g.observe("mid", false)
 			g.history(len(g.ops) + n - mid)
 		}
+		if g.prof.VolHeavy {
+			g.volTail()
+		}
 		g.observe("history", false)
+		if g.prof.DanglingPV {
+			g.emit(Op{Kind: "CreatePV"}) // the volume finally exists; the pods' resolved volumes changed without a pod write
+		}
 		g.weakClose()
 		// the weaker notion: every key delivered once after its last change
-		premW = g.histOK && !g.stale && g.podsSettled()
+		premW = g.histOK && !g.stale && g.podsSettled() && !g.prof.DanglingPV
 		fcw, fdw := g.w.fresh(markedIDs(g.w))
 		weak = diffDumps(g.w.cluster.VerifC11Dump(), fdw)
 		weak = append(weak, poolStateDiff(g.w.cluster, fcw, []string{"pa", "pb"})...)
@@ -139,6 +147,7 @@ func runHistory(seed uint64, profName string, script func(g *gen)) (res result) 
 			fresh = append(fresh, fmt.Sprintf("anti-affinity: cached=%v fresh=%v", a, b))
 		}
 		fresh = append(fresh, accessorDiff(g.w.cluster)...)
+		fresh = append(fresh, syncedDiff(g.w)...)
 		g.observe("final", premises)
 	})
 	if panicked {
@@ -202,6 +211,11 @@ func runHistory(seed uint64, profName string, script func(g *gen)) (res result) 
 		res.key = fmt.Sprintf("%x", sha1.Sum([]byte(strings.Join(res.input.Ops, ";"))))
 	}
 	res.gallina = gCase(g.ops, g.roundStart, g.roundEnd)
+	if g.prof.DanglingPV {
+		// the pods' volume attributes depend on an object that is not part of the model's API: these histories are
+		// checked against the fresh real Cluster only
+		res.gallina = "[]"
+	}
 	return
 }
 
@@ -236,6 +250,8 @@ func main() {
 			prof = "untracked"
 		case x < 11:
 			prof = "volheavy"
+		case x < 12:
+			prof = "dangling-pv"
 		}
 		jobs = append(jobs, job{c.Rand.U64(), prof, nil})
 	}
@@ -267,7 +283,7 @@ func main() {
 			}
 		}
 		if r.markFail != "" {
-			c.Fail(id, "MarkForDeletion/UnmarkForDeletion must reach every tracked id of the list: "+r.markFail, "", r.input)
+			c.Fail(id, "in-memory state (marks, nomination, failed reconciles): "+r.markFail, "", r.input)
 		}
 		if r.weakFail {
 			c.Fail(id, "every key was delivered after its last change and the premises hold, but the cache differs from a fresh real Cluster: "+strings.Join(r.input.WeakDiff, "; "), "", r.input)
@@ -301,4 +317,30 @@ func main() {
 		shard = 140
 	}
 	c.Finish("From KV Require Import C11.Model C11.Check.", "case", "check_all", shard)
+}
+
+// syncedDiff: Cluster.Synced (first call) must be true exactly when no cached NodeClaim is unlaunched and the cache
+// knows every managed NodeClaim and every Node of the API.
+func syncedDiff(w *world) []string {
+	d := w.cluster.VerifC11Dump()
+	want := true
+	for _, pid := range d.ClaimNameToPID {
+		want = want && pid != ""
+	}
+	for n := range w.claims {
+		_, ok := d.ClaimNameToPID[n]
+		want = want && ok
+	}
+	for n := range w.nodes {
+		_, ok := d.NodeNameToPID[n]
+		want = want && ok
+	}
+	got := w.cluster.Synced(w.ctx)
+	if again := w.cluster.Synced(w.ctx); again != got { // second call: the latched path, same verdict on an unchanged cache
+		return []string{fmt.Sprintf("accessors: Synced() changed from %v to %v on an unchanged cache", got, again)}
+	}
+	if got != want || w.cluster.HasSynced() != got {
+		return []string{fmt.Sprintf("accessors: Synced()=%v HasSynced()=%v, expected %v from the name maps %v %v", got, w.cluster.HasSynced(), want, d.ClaimNameToPID, d.NodeNameToPID)}
+	}
+	return nil
 }
